@@ -464,7 +464,7 @@ class Interp:
             for bv, tr in g.get("then", ()):
                 if not self.refine(state, bv, tr):
                     return False
-                self.note_branch(state, bv, tr)
+                self.note_atoms(state, bv, tr)
         if b.bit is not None and b.bit != TBIT and not bit_is_const(b.bit) and b.bit[0] == "b":
             n = b.bit[1]
             want = 1 if truth else 0
@@ -1476,10 +1476,17 @@ class Interp:
                 order.append(b)
         return [(b, res[b]) for b in order]
 
-    def note_branch(self, state, b, truth):
+    def note_atoms(self, state, b, truth):
+        """only the path-condition atoms of `b == truth` (no control dependence, no if-conversion guard): used when a fact
+        is re-established from a truth guard rather than by branching here"""
+        g = state.guard
+        self.note_branch(state, b, truth, atoms_only=True)
+        state.guard = g
+
+    def note_branch(self, state, b, truth, atoms_only=False):
         """record guard (for if-conversion at the next join) and path-condition atom"""
         state.guard = None
-        if b.val is None and b.deps and self._cur is not None:
+        if b.val is None and b.deps and self._cur is not None and not atoms_only:
             k = self._cur
             state.ctl[k] = (state.ctl.get(k, (frozenset(), None))[0] | b.deps, None)
         if b.bit is not None and b.val is None and b.bit != TBIT and not bit_is_const(b.bit):
@@ -1517,7 +1524,7 @@ class Interp:
                 g = state.guard
                 for x in o[1]:
                     if isinstance(x, BoolV) and x.val is None:
-                        self.note_branch(state, x, cond_true)
+                        self.note_branch(state, x, cond_true, atoms_only)
                 state.guard = g
             return
         term = b.term
